@@ -566,7 +566,7 @@ pub fn resolve_call(
                 with_ttl_api: false,
             }
         }
-        Op::Reopen | Op::Settle | Op::Advance { .. } | Op::WallToExpiry { .. } | Op::WallJump { .. } => {
+        Op::Reopen | Op::Settle | Op::Advance { .. } | Op::WallToExpiry { .. } | Op::WallJump { .. } | Op::WaitSite { .. } => {
             return None
         }
     })
